@@ -665,6 +665,13 @@ def enumerated(tier):
             o = {"id": "op0", "kind": kind, "addr": A, "handle": 1, "t": 2, "timeout": 2, "dtimeout": 2, "flavour": "v1", "address_type": 1, "response": True, "end": "stop", "cancel_at": ct}
             later = [{"t": 61, "msgs": [{"k": "data", "addr": A, "handle": 1, "data": "aa"}, {"k": "conn", "addr": A, "connected": False, "mtu": 0, "error": 1}]}]
             yield {"noise": False, "ops": [o], "chunks": [{"t": 21, "msgs": [ans]}] + later}
+    # the answer arrives in the very instant of the deadline (socket data is processed before the timers of an instant):
+    # an accepted answer is the outcome, the deadline finds nothing left to do
+    for kind, ans in (("read", {"k": "read", "addr": A, "handle": 1, "data": "0c"}), ("write", {"k": "write", "addr": A, "handle": 1}), ("read", {"k": "gatterr", "addr": A, "handle": 1, "error": 5}),
+                      ("notify", {"k": "notify", "addr": A, "handle": 1}), ("write", {"k": "conn", "addr": A, "connected": False, "mtu": 0, "error": 8}), ("services", {"k": "svcdone", "addr": A})):
+        for dt in (129, 130, 131):
+            o = {"id": "op0", "kind": kind, "addr": A, "handle": 1, "t": 2, "timeout": 1, "dtimeout": 1, "flavour": "v1", "address_type": None, "response": True, "end": "stop"}
+            yield {"noise": False, "ops": [o], "chunks": [{"t": dt, "msgs": [ans]}]}
     # a connect that has timed out and is now waiting for the clean-up disconnect to be confirmed: the caller gives up
     for fl in ("v1", "v3cache"):
         for ct in (259, 300, 500, 513):
